@@ -78,7 +78,7 @@ def digestRange2 (lo n : Nat) (model : Int → Option Int) (spec : Int → Optio
 
 def marker : Option Int := some 0x5BADBADBAD
 
-def handle (ws : List String) : String :=
+def handle1 (ws : List String) : String :=
   match ws with
   | ["pll126", f] =>
     match parseInt? f with
@@ -243,5 +243,13 @@ def handle (ws : List String) : String :=
       s!"{showOptInt (sx127xRssi c raw frf)}|{s}"
     | _, _, _ => "bad-op"
   | _ => "bad-op"
+
+/-- `pa126s variant req rf warm obs`: one driver instance after bring-up and a (cold or warm) sleep;
+the observation is what was programmed since the chip last lost its configuration, and the
+requirement is that of a fresh driver (`pa126`). -/
+def handle (ws : List String) : String :=
+  match ws with
+  | ["pa126s", variant, req, rf, _warm, obs] => handle1 ["pa126", variant, req, rf, obs]
+  | _ => handle1 ws
 
 end Driver.C17
